@@ -9,7 +9,8 @@ COMMON_NOTE = ('Trusted: Coq 8.16.1 kernel (no axioms: Print Assumptions of ever
                'inside Coq), by tools/translate.py for the declarative parts (Gen/*.v regenerated from /repo/src on every run), and - second tie for the '
                'reader logic - by tools/translate_core.py, which regenerates Gallina definitions of every reader method from the source (coq/core/CoreGen.v) '
                'that are proved equal to the hand-written model (coq/core/CoreGenP.v, 40 equalities), and tools/translate_views.py, which does the same for record views, '
-               'SeqLines, owned copies, writer loops and the set / owned-record iterators (coq/core/ViewsGen.v, RecordsGen.v, 64 equalities); when that second tie is lost the correspondence run is deepened; '
+               'SeqLines, owned copies, writer loops and the set / owned-record iterators (coq/core/ViewsGen.v, RecordsGen.v, 64 equalities), and tools/translate_par.py for the record-level closures of '
+               'parallel.rs, parallel_records and ParallelRecordsets::next (coq/core/ParGen.v, 23 lemmas against Model/Par.v); when a translator tie is lost (also one of tools/translate.py) the correspondence run is deepened; '
                'extraction (ExtrOcamlBasic only); the Rust harness. Modelled, not verified: buffer_redux window semantics, memchr, '
                'std iterator adaptors, serde_derive, channel/thread-pool primitives (DESIGN.md section 8).')
 
@@ -34,8 +35,11 @@ CLAIMS = {
          'interrupts x policy) of the same input give, call by call, the same record contents, positions, error fields and end signal '
          '(corollary of the two refinement theorems; no reference run in the statement), and C03_fill_buf_chunking_invisible for the refill loop. '
          'Record sets (C03s.v): two arbitrary seek-free histories (any mixture of single, owned, plain and exact-count set reads) on two arbitrary configurations deliver '
-         'the same contents (prefixes of one another; equal once both reported the end) - corollaries of the exactly-once theorems; additionally pairwise comparison of implementation '
-         'traces across 5-7 configurations per input, plus model/implementation comparison of the read-call and grow_to logs.',
+         'the same contents (prefixes of one another; equal once both reported the end) - corollaries of the exactly-once theorems. "Every growth policy that permits the needed size" '
+         '(C03p.v, 15 theorems): on an input whose records all fit into the initial capacity NO policy is ever consulted, so two ARBITRARY policies (refusing everything, answering nonsense) '
+         'give identical observations, which are the Spec stream; more generally a run that logs no consultation is identical under every other policy (all operations, both formats). '
+         'Run: pairwise comparison of implementation traces across 7-9 configurations per input (incl. refusing policies on buffers that hold the whole input, and limited policies that permit '
+         'exactly the doubling chain the model needs), plus model/implementation comparison of the read-call and grow_to logs.',
     technique='Coq proof (corollary of the refinement theorems for next(); fill_buf lemma) + pairwise differential run across configurations',
     ref='5 C03'),
  'C04': dict(
@@ -140,8 +144,11 @@ CLAIMS = {
     ref='5 C15'),
  'C16': dict(
     text='Theorems of C16.v (5): at most queue_len + 1 data sets are ever created, token conservation (every set is in exactly one place), the reader is never more '
-         'than queue_len sets ahead, every fill reuses a created set; for all input lengths, thread counts, queue lengths and schedules. Tie: trace acceptance; '
-         'black-box counts of dataset_init calls, fill-minus-consumed, and RecordSet buffer capacities.',
+         'than queue_len sets ahead, every fill reuses a created set; for all input lengths, thread counts, queue lengths and schedules. C16r.v (11): the per-record output '
+         'vectors inside the data sets - along every accepted trace record_data_init() is called at most (queue_len+1) x (longest batch) times, exactly the sum over the created sets of '
+         'the longest batch each worked on; a variant that truncates the recycled vector is shown to create slots without bound. Tie: trace acceptance; '
+         'black-box counts of dataset_init / rset_data_init / record_data_init calls (the last against (queue_len+1) x the largest set of a sequential set-by-set read), '
+         'fill-minus-consumed, and RecordSet buffer capacities; the generic parallel_records is run beside the macro-generated functions.',
     technique='Coq invariant proofs over the protocol model + trace acceptance + black-box counters',
     ref='5 C16'),
  'C10': dict(
